@@ -10,7 +10,7 @@ builds.  Verdicts come exclusively from executing the surviving forms.
 import os, re, subprocess, time
 
 
-def build_form_tu(tu_path, out_path, preamble, forms, cmd_prefix, cmd_suffix, max_iter=40, log=None):
+def build_form_tu(tu_path, out_path, preamble, forms, cmd_prefix, cmd_suffix, max_iter=40, log=None, aliases=None):
     """forms: list of (form_id:int, text:str) -- text must be a single line.
     Returns (ok, drivable_ids, undrivable: {id: first diagnostic}, iterations, msg)."""
     live = list(forms)
@@ -32,13 +32,21 @@ def build_form_tu(tu_path, out_path, preamble, forms, cmd_prefix, cmd_suffix, ma
             return True, [fid for fid, _ in live], undrivable, it, ""
         # which form lines do the diagnostics name?
         bad = {}
+        live_ids = [fid for fid, _ in live]
         cur_err = None
         pending = []  # form lines seen since last error line (context precedes or follows)
         for ln in r.stderr.split("\n"):
-            m = re.search(re.escape(base) + r":(\d+):\d+:", ln)
+            m = re.search(re.escape(base) + r":(\d+)(?::\d+)?[:,]", ln)
             is_err = (" error: " in ln) or ("fatal error" in ln)
             if is_err:
                 cur_err = ln.strip()[:300]
+            # a form may own further files (e.g. a generated header it includes)
+            if aliases:
+                for fid in live_ids:
+                    for a in aliases.get(fid, ()):
+                        if a in ln:
+                            bad.setdefault(fid, None)
+                            pending.append(fid)
             if m:
                 n = int(m.group(1))
                 if n in line_to_id:
